@@ -16,6 +16,8 @@ func init() {
 			g13Fields(c)
 			g8CallsReachAdd(c.Repo, c.Rep)
 			g14VisitContinues(c.Repo, c.Rep)
+			g16Load(c.Repo, c.Rep)
+			g12HasUndefined(c)
 			c.Rep.floor("G11", 6)
 			c.Rep.floor("G1", 350)
 			runR_C01(c)
@@ -108,6 +110,8 @@ func init() {
 			runG10(c.Repo, c.Rep)
 			g14ReservedProvenance(c.Repo, c.Rep)
 			g14VisitContinues(c.Repo, c.Rep)
+			g16Load(c.Repo, c.Rep)
+			g12HasUndefined(c)
 			c.Rep.floor("G4", 10)
 			c.Rep.floor("G10", 9)
 		},
@@ -118,6 +122,7 @@ func init() {
 	checks["C08"] = &checkDef{
 		run: func(c *Ctx) {
 			runG6(c.Repo, c.Rep)
+			g16PosOrder(c.Repo, c.Rep)
 			g14ReservedProvenance(c.Repo, c.Rep)
 			c.Rep.floor("G6", 8)
 		},
@@ -131,6 +136,7 @@ func init() {
 			c.Rep.floor("G1", 350)
 			g12HasUndefined(c)
 			g14NilPkg(c.Repo, c.Rep)
+			g16VisitAssertion(c.Repo, c.Rep)
 			runG15(c.Repo, c.Rep)
 			runG9(c, "equal.canEqual", "deepcopy.canCopy", "contains.canEqual", "derive.IsComparable")
 			runR_C09(c)
@@ -157,6 +163,7 @@ func init() {
 			runG11(c.Repo, c.Rep)
 			g14ReservedProvenance(c.Repo, c.Rep)
 			g14AddNameUsed(c.Repo, c.Rep)
+			g16Eq(c)
 			// "call identifier replaced in the AST and file rewritten": the rewrite must truncate, go to the file's own
 			// path and print the file's own tree, or a successful -autoname/-dedup run leaves a package that does not type-check
 			runG4(c.Repo, c.Rep)
